@@ -17,6 +17,7 @@ fn out_u8(o: Option<KIteratorOutput>) -> Option<i64> {
 // @props C13 C06
 // @fns ByteIterator::new, ByteIterator::next, ByteIterator::next_back, ByteIterator::is_bidirectional
 // @bound 3 symbolic bytes, 4 pops from symbolically chosen ends: every interleaving of next / next_back including exhaustion; oracle: a two-ended queue over the byte array
+// @timeout 1500
 #[kani::proof]
 #[kani::unwind(6)]
 fn c13_bytes_two_ended() {
